@@ -89,6 +89,7 @@ class State:
         self.facts = []
         self.checks = []   # (label, formula) evaluated under pc at that point
         self.lazy_checks = []   # obligations of code evaluated lazily while this state reads
+        self.guard_stack = []   # goal evaluation: guards (quantifier ranges, implies-antecedents)
         self.trace = []
 
     def clone(self, memo=None):
@@ -558,7 +559,7 @@ class Executor:
                 sink = SINK[-1] if SINK else None
                 if sink is not None:
                     for lab, hyps, f in s3.checks[len(st_snapshot.checks):]:
-                        sink.lazy_checks.append((lab, hyps, f))
+                        sink.lazy_checks.append((lab, list(hyps) + list(sink.guard_stack), f))
                     for f in s3.facts[len(st_snapshot.facts):]:
                         sink.facts.append(f)
                 return vals3[name]
@@ -1500,7 +1501,10 @@ class Executor:
                 # learned there (callee postconditions) belong to whoever reads element i
                 sink = SINK[-1] if SINK else st
                 for lab, hyps, f in s2.checks[len(st.checks):]:
-                    (sink.lazy_checks if SINK else sink.checks).append((lab, hyps, f))
+                    if SINK:
+                        sink.lazy_checks.append((lab, list(hyps) + list(sink.guard_stack), f))
+                    else:
+                        sink.checks.append((lab, hyps, f))
                 for f in s2.facts[len(st.facts):]:
                     sink.facts.append(f)
                 return v
@@ -1523,7 +1527,14 @@ class Executor:
             a = z3.simplify(to_bool(a))
             if z3.is_false(a):
                 return [(st, z3.BoolVal(True))]
-            b = self.eval1(node.args[1], st)
+            if SINK and self.polarity == 1:
+                SINK[-1].guard_stack.append(a)
+                try:
+                    b = self.eval1(node.args[1], st)
+                finally:
+                    SINK[-1].guard_stack.pop()
+            else:
+                b = self.eval1(node.args[1], st)
             return [(st, z3.Implies(a, to_bool(b)))]
         if self.polarity and fname != 'forall':
             # any other function: its arguments are in unknown polarity
